@@ -29,6 +29,7 @@ type waitScn struct {
 	cancelJ int // canceller waits for the end of the (cancelJ+1)-th exec callback overall; -1: no canceller
 	d       time.Duration
 	bound   int
+	execDur time.Duration // every exec attempt takes this much virtual time
 }
 
 func (s waitScn) name() string {
@@ -40,7 +41,7 @@ func (s waitScn) name() string {
 	if s.cancelJ >= 0 {
 		c = fmt.Sprintf("after-attempt-%d+%v", s.cancelJ, s.d)
 	}
-	return fmt.Sprintf("wait kind=%s w=%v N=%d items=%d c=%d cancel=%s", k, s.w, s.n, s.items, s.c, c)
+	return fmt.Sprintf("wait kind=%s w=%v N=%d items=%d c=%d cancel=%s execDur=%v", k, s.w, s.n, s.items, s.c, c, s.execDur)
 }
 
 type attemptRec struct {
@@ -66,6 +67,9 @@ func (s waitScn) scenario() Scenario {
 			st := core.VNow()
 			if cancelled.Get() {
 				core.Logf("exec item %d attempt %d entered AFTER cancellation", item, k)
+			}
+			if s.execDur > 0 {
+				core.Sleep(s.execDur) // a slow attempt: the wait is measured from its END
 			}
 			fail := k < s.n && core.Choose(2) == 0 // default: fail (so that waits happen); alt: succeed
 			if k >= s.n {
@@ -326,6 +330,17 @@ func genC20(tier string) []Scenario {
 			}
 		}
 	}
+	// slow attempts (each takes w or 3w of virtual time)
+	for _, kind := range []int{kBase, kFuncR} {
+		for _, w := range []time.Duration{time.Millisecond, time.Hour} {
+			for _, dur := range []time.Duration{w, 3 * w} {
+				out = append(out, waitScn{kind: kind, w: w, n: 3, cancelJ: -1, bound: 0, execDur: dur}.scenario())
+				out = append(out, waitScn{kind: kind, w: w, n: 3, cancelJ: 0, d: w / 2, bound: 1, execDur: dur}.scenario())
+			}
+		}
+	}
+	out = append(out, waitScn{kind: -1, w: time.Millisecond, n: 2, items: 2, c: 0, cancelJ: -1, bound: 0, execDur: 2 * time.Millisecond}.scenario())
+	out = append(out, waitScn{kind: -1, w: time.Millisecond, n: 2, items: 2, c: 2, cancelJ: -1, bound: 0, execDur: 2 * time.Millisecond}.scenario())
 	// batch items, sequential and concurrent
 	for _, c := range []int{0, 2} {
 		for _, w := range []time.Duration{time.Millisecond, time.Hour} {
